@@ -108,6 +108,16 @@ func init() {
 		Decides:    "agreement of the escape tables that are written twice: for String, Char and Symbol inspect and the lexer scanners that read their output, every single-letter escape written for a character is decoded to that character, every character the scanner treats specially when unescaped (delimiter, backslash, interpolation openers) is escaped by the writer, and `\\xNN`, which the scanner decodes to one byte, is written only for values below 0x80 or for raw bytes of the string.",
 		NotCovered: "numeric formatting (float %g round trip, big floats, literal bases and suffixes), String#to_int, regex inspect, and nesting of collections: these depend on numeric values, not on table shape.",
 	}
+	props["C01"] = &PropSpec{
+		Rules:      []string{"native/argidx", "optable/siteinfo", "cover/offsets", "cover/rebase", "stack/stale-after-reentry", "effect/mayfatal-unlock", "path/recoverguard", "path/snapshot-first", "effect/selfrec"},
+		Decides:    "nine host-crash mechanisms, each enumerated over all of its sites: a native method indexes its argument slice only within the parameter count it is registered with; a call instruction is always paired with the call-site record type its handler reinterprets through an unsafe pointer, also after instructions were moved; growing the value stack rebases every saved address, and no VM function uses a stack address across a call that can grow the stack; no program-driven unlock can reach the runtime's unrecoverable fatal error; sends, closes, selects and wait-group decrements on program-held objects are recovered or guarded; a method's defer prologue cannot be lost to a flag snapshot taken too late; no function is an unconditional self call.",
+		NotCovered: "index-out-of-range, nil dereference and explicit panic sites whose guard depends on run-time values; representation mismatches between a native method's declared parameter types and the accessors it applies (planned ARGREP engine, not built); Go map concurrent-write fatals from racy Elk programs; soundness of the Elk type system itself. Open finding: select with a send case on a closed channel (listed under C25).",
+	}
+	props["C02"] = &PropSpec{
+		Rules:      []string{"ops/typedguard", "bind/static-guard", "cover/deepcopy"},
+		Decides:    "three places where a static type is turned into an unchecked run-time assumption: a typed opcode chosen under IsSubtype(_, Int/Float) is executed by a handler that reads the operand with exactly those accessors; a call on a class-typed receiver is bound statically only under `exact || class has no children`; and the Children sets (with every other field) survive the deep copy of the type environment that the REPL restores, so the no-children test stays truthful.",
+		NotCovered: "narrowing soundness, subtyping, generic instantiation, and whether each native method returns a value of its declared return type (planned ARGREP results, not built; the Regex#* example named in the property is therefore not decided).",
+	}
 	props["C25"] = &PropSpec{
 		Rules:      []string{"effect/mayfatal-unlock", "path/recoverguard", "path/ctx-blocking"},
 		Decides:    "the `errors rather than crashes` half of the property: (1) no unlock of a sync mutex driven by the program can reach the Go runtime's unrecoverable fatal error (every unpaired Unlock/RUnlock is dominated by a test of state the wrapper tracks); (2) every send, close, reflect.Select and wait-group decrement on an object the program holds is either under a deferred recover() or guarded by a tracked counter; (3) the context-aware channel operations are arms of a select that also watches the context.",
